@@ -32,17 +32,27 @@ F10_WHAT = ("krt JoinCollection converts and drops the events of one sub-collect
             "other sub-collections instead of what it has delivered: when the same key changes in two joined collections "
             "without quiescence in between (or is present in two collections when the join starts) subscribers get a duplicate "
             "Add, an Update/Delete of an unknown key or a wrong Old (List/GetKey stay correct)")
+F13_FP = "krt:nestedjoin:outer-collection-changes-with-events-in-flight"
+F13_WHAT = ("krt NestedJoinWithMergeCollection handles additions, updates and removals of joined collections on the outer "
+            "collection's handler goroutine, next to the queue that handles the joined collections' events and to its own "
+            "asynchronous start: when the outer collection changes while events are in flight (or before the join registered "
+            "to its initial collections) subscribers get a Delete or an Update with a zero-valued Old for a key they do not "
+            "hold, and List/GetKey/Index can keep objects of a collection that is no longer joined")
 U_OPS = ("ulist", "ulookup", "ustream")
 
 
 def known_ops(stream):
     """the u-lines on which a difference belongs to the known class of the stream: F10 (join) garbles events
     only - List / GetKey / Index.Lookup read the live collections and must stay right also on the raced keys"""
+    if stream.startswith("joinn"):
+        return U_OPS            # F13 also leaves wrong contents
     return ("ustream",) if stream.startswith("join") else U_OPS
 FLAGS = ("f6", "jr")
 
 
 def known_class(stream):
+    if stream.startswith("joinn"):
+        return (F13_FP, F13_WHAT)
     return (F10_FP, F10_WHAT) if stream.startswith("join") else (F6_FP, F6_WHAT)
 
 
@@ -144,8 +154,8 @@ def classify(op_line, impl_line, model_line):
         kind = "event" if "reject:event" in model_line else ("contents" if "reject:contents" in model_line else "other")
         return ("krt:stream:%s" % kind,
                 "a subscriber's recorded event stream is rejected by the verified monitor (%s)" % model_line)
-    if op in ("list", "get", "lookup", "ulist", "ulookup", "flookup"):
-        return ("krt:%s" % ("lookup" if op == "flookup" else op.lstrip("u")),
+    if op in ("list", "get", "lookup", "ulist", "ulookup", "flookup", "vlookup"):
+        return ("krt:%s" % ("lookup" if op in ("flookup", "vlookup") else op.lstrip("u")),
                 "%s on the real collection differs from the transformation applied to the current inputs" % op)
     return "krt:%s" % op, "model and implementation answer differently to '%s'" % op_line
 
@@ -297,12 +307,16 @@ def run(ctx):
     run_stream(ctx, "join", ctx.n(1200, 60000))
     run_stream(ctx, "joinr", ctx.n(300, 6000))
     run_stream(ctx, "joinm", ctx.n(600, 15000))
+    run_stream(ctx, "joinn", ctx.n(600, 15000))
+    run_stream(ctx, "joinnr", ctx.n(150, 3000))
+    run_stream(ctx, "misc", ctx.n(800, 20000))
+    run_stream(ctx, "idxc", ctx.n(600, 15000))
     run_stream(ctx, "mem", ctx.n(600, 15000))
     # last: the exact correspondence of the runtime model (a difference here with no violation above ends as
     # `no-failing-input-found`)
     run_stream(ctx, "exact", ctx.n(1500, 40000))
     run_stream(ctx, "joinx", ctx.n(600, 15000))
-    for stream in ("krt", "krtf6", "join", "joinr", "joinm", "mem"):
+    for stream in ("krt", "krtf6", "join", "joinr", "joinm", "joinn", "mem"):
         run_oracle(ctx, stream)
 
 
